@@ -274,7 +274,8 @@ func report(c *Ctx, cases []*Case, res []Result) {
 			sentFail[f] = cs.Text()
 		}
 	}
-	type viol struct{ Case, What, Detail, Family, Actual string }
+	type viol struct{ Case, What, Detail, Family, Actual, JSON string }
+	cj := func(cs *Case) string { b, _ := json.Marshal(cs); return string(b) }
 	var viols []viol
 	fam := map[string]int{}
 	for i, cs := range cases {
@@ -287,7 +288,7 @@ func report(c *Ctx, cases []*Case, res []Result) {
 			c.Count("class:" + r.Class)
 		}
 		if r.ID < 0 {
-			viols = append(viols, viol{cs.Text(), "not-run", "the child never answered for this case", "", cs.Text()})
+			viols = append(viols, viol{cs.Text(), "not-run", "the child never answered for this case", "", cs.Text(), cj(cs)})
 			continue
 		}
 		if r.OK {
@@ -295,17 +296,17 @@ func report(c *Ctx, cases []*Case, res []Result) {
 		}
 		key := cs.Text()
 		if strings.HasPrefix(cs.Op, "sentinel:") {
-			viols = append(viols, viol{key, r.What, r.Detail, strings.TrimPrefix(cs.Op, "sentinel:"), key})
+			viols = append(viols, viol{key, r.What, r.Detail, strings.TrimPrefix(cs.Op, "sentinel:"), key, cj(cs)})
 			continue
 		}
 		if r.Family != "" {
 			fam[r.Family]++
 			if k, ok := sentFail[r.Family]; ok {
-				viols = append(viols, viol{k, r.What, "generated case of the same family: " + key + " -- " + r.Detail, r.Family, key})
+				viols = append(viols, viol{k, r.What, "generated case of the same family: " + key + " -- " + r.Detail, r.Family, key, cj(cs)})
 				continue
 			}
 		}
-		viols = append(viols, viol{key, r.What, r.Detail, r.Family, key})
+		viols = append(viols, viol{key, r.What, r.Detail, r.Family, key, cj(cs)})
 	}
 	// one entry per key (first detail wins), stable order
 	seen := map[string]bool{}
@@ -315,13 +316,18 @@ func report(c *Ctx, cases []*Case, res []Result) {
 			continue
 		}
 		seen[v.Case] = true
-		out = append(out, map[string]string{"case": v.Case, "what": v.What, "detail": v.Detail, "family": v.Family, "actual": v.Actual})
+		out = append(out, map[string]string{"case": v.Case, "what": v.What, "detail": v.Detail, "family": v.Family, "actual": v.Actual, "json": v.JSON})
 	}
 	sort.SliceStable(out, func(i, j int) bool { return out[i]["case"] < out[j]["case"] })
 	c.Stats["oracle_violations"] = out
 	c.Stats["oracle_failing_cases"] = len(viols)
 	c.Stats["family_hits"] = fam
 	c.Stats["cases"] = len(cases)
+	dist := map[string]bool{}
+	for _, cs := range cases {
+		dist[cs.Text()] = true
+	}
+	c.Stats["distinct_cases"] = len(dist)
 	for i, cs := range cases {
 		if i%(len(cases)/6+1) == 0 {
 			c.Emit("%s", cs.Text())
